@@ -480,8 +480,11 @@ where
         self: &'a mut Pin<&mut Self>,
         cx: &mut Context<'_>,
     ) -> Poll<Option<Result<(), ChannelError<C::Error>>>> {
-        while self.poll_ready(cx)?.is_pending() {
+        if self.poll_ready(cx)?.is_pending() {
+            // A flush may make room. If the transport is still not ready after a completed
+            // flush, it has registered the waker: return Pending instead of spinning.
             ready!(self.poll_flush(cx)?);
+            ready!(self.poll_ready(cx)?);
         }
         Poll::Ready(Some(Ok(())))
     }
